@@ -122,11 +122,14 @@ fn next_str<'s>(bytes: &mut &'s [u8], state: &mut State) -> Option<&'s str> {
     });
     let (_, next) = bytes.split_at(offset.unwrap_or(bytes.len()));
     *bytes = next;
-    *state = State::Ground;
+    if *state == State::Utf8 {
+        // `str` is already validated, the multi-byte character is taken as part of the printable run
+        *state = State::Ground;
+    }
 
     let offset = bytes.iter().copied().position(|b| {
-        let (_next_state, action) = state_change(State::Ground, b);
-        !(is_printable_bytes(action, b) || is_utf8_continuation(b))
+        let (_next_state, action) = state_change(*state, b);
+        !(is_printable_bytes(action, b) || (*state == State::Ground && is_utf8_continuation(b)))
     });
     let (printable, next) = bytes.split_at(offset.unwrap_or(bytes.len()));
     *bytes = next;
@@ -307,14 +310,13 @@ fn next_bytes<'s>(
             }
             false
         } else {
-            let (next_state, action) = state_change(State::Ground, b);
-            if next_state != State::Anywhere {
+            let (next_state, action) = state_change(*state, b);
+            if next_state == State::Utf8 {
                 *state = next_state;
-            }
-            if *state == State::Utf8 {
                 utf8parser.add(b);
                 false
             } else {
+                // Leave `state` as-is; the byte gets re-evaluated when skipping non-printable bytes
                 !is_printable_bytes(action, b)
             }
         }
